@@ -158,3 +158,64 @@ pub open spec fn bulk_entry_ok(entry: (u64, AkdValue), d: Result<ValueState, Sto
 pub open spec fn wf_pair(d: ValueState, t: ValueState) -> bool {
     (d.epoch < t.epoch ==> d.version < t.version) && (d.epoch == t.epoch ==> d.version == t.version) && (d.epoch > t.epoch ==> d.version > t.version)
 }
+
+// ---- single / batched record gets (C15: reads consult the transaction log first)
+pub trait Storable { type StorageKey: Clone + core::hash::Hash + Eq; }
+impl Transaction {
+    pub uninterp spec fn spec_get<St: Storable>(&self, id: St::StorageKey) -> Option<DbRecord>;
+    #[verifier::external_body]
+    pub fn get<St: Storable>(&self, id: &St::StorageKey) -> (r: Option<DbRecord>)
+        ensures r == self.spec_get::<St>(*id)
+    { unimplemented!() }
+}
+impl TimedCache {
+    pub uninterp spec fn spec_hit<St: Storable>(&self, id: St::StorageKey) -> Option<DbRecord>;
+    #[verifier::external_body]
+    pub async fn hit_test<St: Storable>(&self, id: &St::StorageKey) -> (r: Option<DbRecord>)
+        ensures r == self.spec_hit::<St>(*id)
+    { unimplemented!() }
+}
+impl<Db: Database> DbHandle<Db> {
+    pub uninterp spec fn spec_get<St: Storable>(&self, id: St::StorageKey) -> Result<DbRecord, StorageError>;
+    #[verifier::external_body]
+    pub async fn get<St: Storable>(&self, id: &St::StorageKey) -> (r: Result<DbRecord, StorageError>)
+        ensures r == self.spec_get::<St>(*id)
+    { unimplemented!() }
+}
+// the record a read of `id` must return: the pending record if the open transaction has one, else a cache hit, else the database's
+pub open spec fn read_of<Db: Database, St: Storable>(m: &StorageManager<Db>, id: St::StorageKey) -> Result<DbRecord, StorageError> {
+    if m.transaction.spec_active() && m.transaction.spec_get::<St>(id) is Some { Ok(m.transaction.spec_get::<St>(id)->Some_0) }
+    else if m.cache is Some && m.cache->Some_0.spec_hit::<St>(id) is Some { Ok(m.cache->Some_0.spec_hit::<St>(id)->Some_0) }
+    else { m.db.spec_get::<St>(id) }
+}
+
+// R-COLLECT targets (trusted): contents as sets
+pub use std::collections::HashSet;
+#[verifier::external_body]
+pub fn vx_collect_set<K: Clone + core::hash::Hash + Eq>(xs: &[K]) -> (r: HashSet<K>)
+    ensures forall|k: K| #![trigger r@.contains(k)] r@.contains(k) <==> xs@.contains(k)
+{ unimplemented!() }
+#[verifier::external_body]
+pub fn vx_set_into_vec<K: core::hash::Hash + Eq>(s: HashSet<K>) -> (r: Vec<K>)
+    ensures forall|k: K| #![trigger r@.contains(k)] r@.contains(k) <==> s@.contains(k)
+{ unimplemented!() }
+impl<Db: Database> DbHandle<Db> {
+    // the database's batched answer: exactly the records of the keys that exist
+    pub uninterp spec fn spec_batch_get<St: Storable>(&self, ids: Seq<St::StorageKey>) -> Result<Seq<DbRecord>, StorageError>;
+    #[verifier::external_body]
+    pub async fn batch_get<St: Storable>(&self, ids: &[St::StorageKey]) -> (r: Result<Vec<DbRecord>, StorageError>)
+        ensures match r { Ok(v) => self.spec_batch_get::<St>(ids@) == Ok::<Seq<DbRecord>, StorageError>(v@), Err(e) => self.spec_batch_get::<St>(ids@) == Err::<Seq<DbRecord>, StorageError>(e) }
+    { unimplemented!() }
+}
+// provenance of one record returned by a batched get for the key list `ids` (C15: pending records win; a cache hit only for keys without a pending record;
+// the database is asked only for keys with neither)
+pub open spec fn from_pending<Db: Database, St: Storable>(m: &StorageManager<Db>, ids: Seq<St::StorageKey>, rec: DbRecord) -> bool {
+    exists|i: int| 0 <= i < ids.len() && m.transaction.spec_active() && #[trigger] m.transaction.spec_get::<St>(ids[i]) == Some(rec)
+}
+pub open spec fn from_cache<Db: Database, St: Storable>(m: &StorageManager<Db>, ids: Seq<St::StorageKey>, rec: DbRecord) -> bool {
+    exists|i: int| 0 <= i < ids.len() && !(m.transaction.spec_active() && m.transaction.spec_get::<St>(ids[i]) is Some)
+        && m.cache is Some && #[trigger] m.cache->Some_0.spec_hit::<St>(ids[i]) == Some(rec)
+}
+pub open spec fn needs_db<Db: Database, St: Storable>(m: &StorageManager<Db>, id: St::StorageKey) -> bool {
+    !(m.transaction.spec_active() && m.transaction.spec_get::<St>(id) is Some) && !(m.cache is Some && m.cache->Some_0.spec_hit::<St>(id) is Some)
+}
